@@ -71,6 +71,30 @@ pub fn programs(w: &World, thorough: bool) -> Vec<String> {
             }
         }
     }
+    // where-clauses, generic structs, list functions and conditionals over every ordered atom pair
+    {
+        let at = atoms(thorough);
+        for a in &at {
+            for b in &at {
+                let (a, b) = (a.render(), b.render());
+                v.push(format!("fn fw1(x) = la + lb\n  where la = x * {a}\n    and lb = 2 la\nfw1(3 * {b})"));
+                v.push(format!("fn fw2(x, y) = la / lb\n  where la = x^2\n    and lb = sqrt(y * y)\nfw2(3 * {a}, 2 * {b})"));
+                v.push(format!("fn fw3<D: Dim>(x: D) -> D^2 = lc\n  where lc: D^2 = x * x\nfw3(3 * {a}) / (2 * {b})"));
+                v.push(format!("fn fw4(x) = if x > 2 * {a} then x else la\n  where la = 3 * {a}\nfw4(5 * {b})"));
+                v.push(format!("struct Gp<D: Dim> {{ g1: D, g2: D^2 }}\nlet gp = Gp {{ g1: 2 * {a}, g2: 3 * {a} * {a} }}\ngp.g2 / gp.g1 + 4 * {b}"));
+                v.push(format!("struct Gq<D: Dim, E: Dim> {{ g1: D, g2: D / E }}\nGq {{ g1: 2 * {a}, g2: 3 * {a} / ({b}) }}.g2 * (5 * {b})"));
+                v.push(format!("sum([2 * {a}, 3 * {b}])"));
+                v.push(format!("map(sqr, [2 * {a}, 3 * {b}]) |> head"));
+                v.push(format!("[2 * {a}, 3 * {b}] |> reverse |> head"));
+                v.push(format!("maximum([2 * {a}, 3 * {b}]) - minimum([2 * {a}, 3 * {b}])"));
+                v.push(format!("sort([2 * {a}, 3 * {b}]) |> head"));
+                v.push(format!("foldl(_add, 0, [2 * {a}, 3 * {b}])"));
+                v.push(format!("if 2 * {a} > 3 * {b} then 2 * {a} else 3 * {b}"));
+                v.push(format!("let (vq) = 1\n[2 * {a}] |> map(fn_id, _)"));
+            }
+        }
+        v.retain(|p| !p.contains("fn_id"));
+    }
     // struct fields and list elements
     for (a, b) in [("3 m", "2 s"), ("1 km + 2 m", "3 hour"), ("sq(2 m) / (1 m)", "1 / (2 Hz)")] {
         v.push(format!("Pair {{ p1: {a}, p2: {b} }}.p1"));
@@ -204,7 +228,7 @@ pub fn check(rep: &mut Report) {
     }
     rep.set("verdicts", json!(counts));
     rep.set("programs", json!(n));
-    rep.rule = "every program of the C02 space (expressions of depth <= 2 over the collision alphabet, annotated lets, inferred/annotated/generic functions with call sites, unit and dimension definitions) plus base^X for every composite constant exponent expression X of depth <= 2 over {2,3,-1,0.5,0.1,0.2,0.3,1/3}, as result, bound global, function body and list element; for every program the checker accepts: run-time dimension of every produced quantity == static type, run-time errors only of the documented kinds; non-trivial = accepted programs whose quantities were compared".into();
+    rep.rule = "every program of the C02 space (expressions of depth <= 2 over the collision alphabet, annotated lets, inferred/annotated/generic functions with call sites, unit and dimension definitions) plus base^X for every composite constant exponent expression X of depth <= 2 over {2,3,-1,0.5,0.1,0.2,0.3,1/3}, as result, bound global, function body and list element; where-clauses, generic structs, list functions and conditionals over every ordered atom pair; for every program the checker accepts: run-time dimension of every produced quantity == static type, run-time errors only of the documented kinds; non-trivial = accepted programs whose quantities were compared".into();
     rep.assumptions = vec![
         "both the static and the dynamic view come from the implementation; the base-unit -> base-dimension map comes from the unit registry".into(),
         "programs whose static type is polymorphic or not a dimension are only checked for run-time error kinds".into(),
